@@ -55,7 +55,7 @@ DOCS = {
                  # valid JSON may carry an unpaired surrogate escape
                  b'{"k": [{"a": "x\\ud83dy"}, {"a": "\\u00e9"}], "a": "\\udc00b"}'],
     "deep": [deep_doc(60)],      # container nesting 122 > default max_recursion_depth 100
-    "badjson": [b'{"k": [1, 2', b"nope", b""],
+    "badjson": [b'{"k": [1, 2', b"nope", b"", b'{"a": "x\ty"}', b'["a\nb"]', b'{"k\x00": 1}', b'{"a": "\x1f"}', b"[1,]", b"{'a': 1}", b"[NaN]" if False else b"[1 2]"],
     "badutf8": [b'{"a": "\xff\xfe"}', b'["\xc3\x28"]'],
 }
 
